@@ -25,7 +25,11 @@
 (* what a shallow Clone/CopyFrom would do: Mutate(h) then changes every    *)
 (* cache entry of the same identity.                                       *)
 (* CommitOnFail / RemoveOnDelete name two more deviations (both as         *)
-(* written: FALSE / TRUE).                                                 *)
+(* written: FALSE / TRUE).  MigrateWipes (as written: TRUE) is a defect of *)
+(* the library found with this model: with >= 3 blocks on a chain TLC      *)
+(* shows a stale read (known finding KF-C07-migrate); the exhaustive       *)
+(* configurations run as-written where it cannot bite (<= 2 blocks) and    *)
+(* the intended variant with 3 blocks.                                     *)
 (***************************************************************************)
 EXTENDS Integers, FiniteSets, TLC
 
@@ -35,7 +39,10 @@ CONSTANTS Keys,            \* state keys
           Handles,         \* caller-held objects
           DeepClone,       \* TRUE = code as written
           CommitOnFail,    \* FALSE = code as written (txn cache committed only on success)
-          RemoveOnDelete   \* TRUE = code as written (DeleteTrieNode removes the key from the cache)
+          RemoveOnDelete,  \* TRUE = code as written (DeleteTrieNode removes the key from the cache)
+          MigrateWipes     \* TRUE = library as written: StateCache.Get, finding the answer at a proper ancestor,
+                           \* REPLACES the key's table by the single migrated entry (entries of all other
+                           \* blocks, newer ones included, are lost); FALSE = the entry is added to the table
 
 G == "g"                   \* genesis: sealed from the start, its cache was never committed
 BlocksG == Blocks \cup {G}
@@ -87,7 +94,8 @@ GlobEntry(k, start) == LET a == Nearest(k, start) IN IF a = "none" THEN NoEntry 
 GlobAfterGet(k, start) ==
   LET a == Nearest(k, start) IN
   IF a = "none" \/ a = start THEN glob
-  ELSE [glob EXCEPT ![k] = [b \in BlocksG |-> IF b = start THEN glob[k][a] ELSE NoEntry]]
+  ELSE IF MigrateWipes THEN [glob EXCEPT ![k] = [b \in BlocksG |-> IF b = start THEN glob[k][a] ELSE NoEntry]]
+  ELSE [glob EXCEPT ![k][start] = glob[k][a]]
 
 BlkEntry(b, k) == IF blkC[b][k].has THEN blkC[b][k] ELSE GlobEntry(k, parent[b])
 TxnEntry(k) == IF txnC[k].has THEN txnC[k] ELSE BlkEntry(cur, k)
